@@ -22,6 +22,7 @@ import (
 
 	"github.com/tochemey/goakt/v4/actor"
 	"github.com/tochemey/goakt/v4/log"
+	"github.com/tochemey/goakt/v4/supervisor"
 	"github.com/tochemey/goakt/v4/verifharness/sched"
 	"github.com/tochemey/goakt/v4/verifharness/vtrace"
 )
@@ -51,8 +52,10 @@ func (r *recorder) yield(point string, id int) {
 }
 
 type testActor struct {
-	r     *recorder
-	spin  int // free-running: busy work inside the handler to widen windows
+	r       *recorder
+	spin    int // free-running: busy work inside the handler to widen windows
+	crashID int // a message with this id makes the handler panic (supervised-restart scenarios)
+	crashed atomic.Bool
 }
 
 func (a *testActor) PreStart(*actor.Context) error {
@@ -67,6 +70,11 @@ func (a *testActor) Receive(ctx *actor.ReceiveContext) {
 	}
 	a.r.yield("h.enter", m.ID)
 	a.r.ev("enter", m.ID)
+	if a.crashID != 0 && m.ID == a.crashID {
+		a.r.ev("exit", m.ID) // the invocation ends here (by panic)
+		a.crashed.Store(true)
+		panic("seeded failure")
+	}
 	for i := 0; i < a.spin; i++ {
 		runtime.Gosched()
 	}
@@ -353,7 +361,13 @@ func explore(sys actor.ActorSystem, runs, nprod, nmsgs int, seed int64, w *vtrac
 	rec := &recorder{w: w}
 	for run := 0; run < runs; run++ {
 		w.Raw(map[string]any{"ev": "New", "id": 0, "g": 0, "t": "", "at": "", "on": ""})
-		pid, err := sys.Spawn(ctx, "x"+strconv.Itoa(run), &testActor{r: rec}, actor.WithLongLived())
+		ta := &testActor{r: rec}
+		spawnOpts := []actor.SpawnOption{actor.WithLongLived()}
+		if mode == 4 { // the first message of producer 1 panics; the supervisor restarts the (suspended) actor
+			ta.crashID = 11
+			spawnOpts = append(spawnOpts, actor.WithSupervisor(supervisor.NewSupervisor(supervisor.WithAnyErrorDirective(supervisor.RestartDirective))))
+		}
+		pid, err := sys.Spawn(ctx, "x"+strconv.Itoa(run), ta, spawnOpts...)
 		if err != nil {
 			fatal("spawn", err)
 		}
@@ -362,6 +376,10 @@ func explore(sys actor.ActorSystem, runs, nprod, nmsgs int, seed int64, w *vtrac
 		}
 		s := sched.New()
 		s.Watchdog = 2 * time.Second
+		if mode == 4 {
+			w.Emit(map[string]any{"ev": "restartcall", "id": 0, "g": 0, "t": "supervisor"}) // exempts the C02 drain clause
+			s.AdoptAt("restart.wait", "rs") // the supervisor's restartChild goroutine becomes a logical thread at its wait loop
+		}
 		ds := actor.VerifSchedStateOf(pid)
 		user, system := actor.VerifMailboxesOf(pid)
 		s.Control(ds)
@@ -434,6 +452,7 @@ func explore(sys actor.ActorSystem, runs, nprod, nmsgs int, seed int64, w *vtrac
 		blocked := map[string]bool{}
 		lockHolder := ""
 		idle := 0
+		holds := 0
 		for step := 0; step < 600; step++ {
 			// newly adopted workers
 			for {
@@ -483,6 +502,12 @@ func explore(sys actor.ActorSystem, runs, nprod, nmsgs int, seed int64, w *vtrac
 				}
 			}
 			before, _ := s.Pending(best)
+			if mode == 4 && before.Point == "h.exit" && ta.crashed.Load() && holds < 2 {
+				// a worker is inside Receive after the failure: give the asynchronous supervision pipeline
+				// (signal -> parent -> restartChild -> restartSubtree) time to reach PreStart meanwhile
+				holds++
+				time.Sleep(60 * time.Millisecond)
+			}
 			if len(blocked) == 0 { // only sequential prefixes are comparable with the model step by step
 				on := ""
 				if before.Obj == user {
@@ -505,7 +530,7 @@ func explore(sys actor.ActorSystem, runs, nprod, nmsgs int, seed int64, w *vtrac
 			}
 			// hand-off windows: a thread that has just given up ownership (ds.reset) or has just entered the
 			// handler is often left behind so that the others can race through the window it opened
-			if (before.Point == "ds.reset" || before.Point == "h.enter" || before.Point == "ds.yield") && rng.Intn(2) == 0 {
+			if (before.Point == "ds.reset" || before.Point == "h.enter" || before.Point == "ds.yield" || before.Point == "restart.wait") && rng.Intn(2) == 0 {
 				prio[best] = -1 - rng.Intn(1000)
 			}
 			if before.Point == "stop.lock" && after.Point == "ps.enter" {
